@@ -62,20 +62,36 @@ def check_assignment(P, R):
 def check_cluster_masks(P, R, rule="IDX.mask-eq"):
     """The samples summed into cluster i's statistics are those whose nearest-centroid index *equals* i."""
     n = 0
-    for key in ("kmeans:e_step", "kmeans:accumulate_indices_means_vars"):
-        f = P.func(key)
+    todo = []
+    for key0 in ("kmeans:e_step", "kmeans:accumulate_indices_means_vars"):
+        f0 = P.func(key0)
+        lab0 = lambda cn: cn.calls_any("argmin") or any(x.endswith("get_closest_centroid_index") for x in cn.calls)
+        todo.append((key0, f0, f0.value_params[0], lab0, key0))
+        # helpers of the package that receive the data and the assignment: examined with the roles bound to their parameters
+        du0 = get_defuse(f0, P)
+        for c0 in [x for x in walk_no_nested(f0.node) if isinstance(x, ast.Call)]:
+            try:
+                kind0, fexpr0, args0, kws0 = P.peel_call(c0, f0)
+                tg0 = [t_[1] for t_ in P.resolve_callee(fexpr0, f0) if t_[0] == "repo"]
+            except Exception:
+                tg0 = []
+            for callee in tg0[:1]:
+                b0 = P.bind_args(callee, args0, kws0)
+                dp = [p_ for p_, a_ in b0.items() if isinstance(a_, ast.Name) and a_.id == f0.value_params[0]]
+                lp_ = [p_ for p_, a_ in b0.items() if a_ is not None and p_ not in dp and lab0(cone(du0, a_, du0.stmt_of(c0), interproc=False))]
+                if dp and lp_:
+                    todo.append((callee.key, callee, dp[0], (lambda names: (lambda cn: bool(set(names) & cn.params)))(tuple(lp_)), key0))
+    counts = {}
+    for key, f, data_p, is_label, root_key in todo:
         du = get_defuse(f, P)
         n_here = n
         from ..engines import group as _grp
-
-        def is_label(cn):
-            return cn.calls_any("argmin") or any(x.endswith("get_closest_centroid_index") for x in cn.calls)
         for sub_ in [x for x in walk_no_nested(f.node) if isinstance(x, ast.Subscript) and not isinstance(x.ctx, ast.Store)]:
             first = sub_.slice.elts[0] if isinstance(sub_.slice, ast.Tuple) and sub_.slice.elts else sub_.slice
             if isinstance(first, (ast.Slice, ast.Constant)):
                 continue
             bc = cone(du, sub_.value, du.stmt_of(sub_), interproc=False)
-            if f.value_params[0] not in bc.params or is_label(bc):
+            if data_p not in bc.params or is_label(bc):
                 continue  # not a selection out of the data
             kind, ok, why = _grp.selection(du, first, du.stmt_of(sub_), is_label)
             if kind is None:
@@ -101,10 +117,12 @@ def check_cluster_masks(P, R, rule="IDX.mask-eq"):
                         break
             else:
                 R.check(ok, rule, key, src(sub_)[:60], why, f"cluster statistics are not accumulated over the samples whose nearest centroid *is* the cluster: {why}", sub_.lineno)
-        for node_, kind_, ok_, why_ in _grp.scatter_sites(f, du, is_label, f.value_params[0]):
+        for node_, kind_, ok_, why_ in _grp.scatter_sites(f, du, is_label, data_p):
             n += 1
             R.check(ok_, rule, key, src(node_)[:60], why_, f"cluster statistics are not accumulated over the samples whose nearest centroid *is* the cluster: {why_}", node_.lineno)
-        R.floor(f"{rule} ({key})", n - n_here, 1)  # at least one per function: selecting the cluster's samples once or per statistic are both fine
+        counts[root_key] = counts.get(root_key, 0) + (n - n_here)
+    for root_key, k_ in counts.items():
+        R.floor(f"{rule} ({root_key})", k_, 1)  # at least one per function (or its helpers): selecting the cluster's samples once or per statistic are both fine
 
 
 def _parents(n):
